@@ -47,6 +47,8 @@ def dec(c):
         return bool(c["b"])
     if "fr" in c:
         return Fraction(c["fr"][0], c["fr"][1])
+    if "x" in c:
+        return float(c["x"])          # a double given by its decimal literal (many decimals)
     if "cat" in c:
         from coba.primitives import Categorical
         return Categorical(c["cat"], list(c["levels"]))
@@ -408,6 +410,7 @@ def observe(env, probes, keys=None):
         rw = it["rewards"]
         o["on_actions"] = [apply_reward(rw, a) for a in acts]
         o["on_probes"] = [apply_reward(rw, p) for p in probes]
+        o["copies"] = observe_copies(rw, acts, probes, o["on_actions"])
         out.append(o)
     return {"ints": out}
 
@@ -426,6 +429,44 @@ def actions_in_other_process(case):
         return json.loads(p.stdout.strip().splitlines()[-1]) if p.returncode == 0 and p.stdout.strip() else None
     except Exception:
         return None
+
+
+def copy_methods():
+    import copy
+    import pickle
+    from coba.json import dumps, loads
+    return [("pickle", lambda x: pickle.loads(pickle.dumps(x))), ("deepcopy", copy.deepcopy), ("json", lambda x: loads(dumps(x)))]
+
+
+def observe_copies(rw, acts, probes, on_actions):
+    """the reward object after a trip through pickle / copy.deepcopy / coba.json (what happens to interactions that are cached,
+    sent to worker processes or saved), evaluated on the same actions and probes; and the same for a DiscreteReward that tabulates
+    the offered actions"""
+    out = {"cls": type(rw).__name__}
+    disc = None
+    if acts and all(r[0] == "v" for r in on_actions):
+        try:
+            from coba.primitives import DiscreteReward
+            hashable = all(not isinstance(a, (list, dict)) for a in acts)
+            vals = [r[1] / r[2] if r[2] != 1 else r[1] for r in on_actions]
+            disc = DiscreteReward(list(acts), vals)
+            out["disc0"] = [apply_reward(disc, a) for a in acts]
+        except Exception as e:
+            out["disc0"] = ["ctor-err", ename(e)]
+            disc = None
+    for name, f in copy_methods():
+        try:
+            c = f(rw)
+            out[name] = {"on_actions": [apply_reward(c, a) for a in acts], "on_probes": [apply_reward(c, p) for p in probes]}
+        except Exception as e:
+            out[name] = {"err": ename(e)}
+        if disc is not None:
+            try:
+                d = f(disc)
+                out[name]["disc"] = [apply_reward(d, a) for a in acts]
+            except Exception as e:
+                out[name]["disc"] = ["err", ename(e)]
+    return out
 
 
 def apply_reward(rw, a):
@@ -572,7 +613,7 @@ def res_is(res, value):
     # exact; for values in [0,1] (Jaccard: the model gives the exact rational, the statement's formula a double) equal after rounding to double
     if Fraction(res[1], res[2]) == Fraction(value):
         return True
-    return 0 <= Fraction(value) <= 1 and res[1] / res[2] == float(value)
+    return abs(Fraction(value)) < 2 ** 50 and abs(Fraction(res[1], res[2])) < 2 ** 50 and res[1] / res[2] == float(value)
 
 
 def monitor(obs, exp, probes, case, readno, who="impl"):
@@ -652,6 +693,36 @@ def monitor(obs, exp, probes, case, readno, who="impl"):
                 if bad:
                     fail("context-by-key:" + src, "context[%s] of interaction %d gives %s, the features are %s" % (short(bad[0][0]), i, short(bad[0][1]), short(f)), ["acc"])
                     break
+    # the reward clause must still hold after the reward object went through pickle / deepcopy / coba.json: the copy must give
+    # what the original gives (the original itself is checked against the statement below)
+    if not case.get("edge"):
+        fraction_labels = any(l and l[0] == "q" and l[2] & (l[2] - 1) for l in exp["labels"])
+        for i, it in enumerate(ints):
+            cp = it.get("copies")
+            if not cp:
+                continue
+            bad = None
+            for name in ("pickle", "deepcopy", "json"):
+                c = cp.get(name)
+                if c is None:
+                    continue
+                if "err" in c:
+                    if name == "json" and fraction_labels:
+                        continue        # coba.json carries literal types only; a Fraction target is not supported by the unchanged code either
+                    bad = (name, cp["cls"], "copying raised %s" % c["err"])
+                    break
+                if c["on_actions"] != it["on_actions"] or c["on_probes"] != it["on_probes"]:
+                    k = next((k for k, (x, y) in enumerate(zip(c["on_actions"] + c["on_probes"], it["on_actions"] + it["on_probes"])) if x != y), 0)
+                    allv = (it["actions"] + [canon(p) for p in probes])
+                    bad = (name, cp["cls"], "the copy rewards %s with %s, the original with %s" % (short(allv[k]) if k < len(allv) else k,
+                           short((c["on_actions"] + c["on_probes"])[k]), short((it["on_actions"] + it["on_probes"])[k])))
+                    break
+                if "disc" in c and isinstance(cp.get("disc0"), list) and cp["disc0"] and cp["disc0"][0] != "ctor-err" and c["disc"] != cp["disc0"]:
+                    bad = (name, "DiscreteReward", "a DiscreteReward over the offered actions gives %s before and %s after the copy" % (short(cp["disc0"]), short(c["disc"])))
+                    break
+            if bad:
+                fail("reward-copy:%s:%s" % (bad[0], bad[1]), "interaction %d (label %s): after %s of the reward object %s" % (i, short(exp["labels"][i]), bad[0], bad[2]), ["copies"])
+                break
     if case.get("edge") or lt is None:
         return fails
     # the same action list everywhere
@@ -875,8 +946,9 @@ def model_obs(ans, op):
 def same_res(a, b):
     if a[0] == "v" and b[0] == "v":
         # the model's value is an exact rational; the implementation's a double: equal after rounding
+        # (integers beyond 2^50 are compared exactly: there a double no longer tells neighbours apart)
         x, y = Fraction(a[1], a[2]), Fraction(b[1], b[2])
-        return x == y or (0 <= x <= 1 and 0 <= y <= 1 and a[1] / a[2] == b[1] / b[2])
+        return x == y or (abs(x) < 2 ** 50 and abs(y) < 2 ** 50 and a[1] / a[2] == b[1] / b[2])
     return a == b
 
 
@@ -941,10 +1013,11 @@ def known_sigs():
 
 
 # ------------------------------------------------------------------ generators
-STR_POOL = ["a", "b", "c", "ab", "B", "10", "9", "é", "x y", "z9", "", "abc", "中"]
+STR_POOL = ["a", "b", "c", "ab", "B", "10", "9", "é", "x y", "z9", "", "abc", "中", "it's \"q\"", " a,b ", "back\\slash", "line\nbreak"]
 FILE_POOL = ["a", "b", "c", "ab", "B", "10", "9", "z9", "Yes", "no", "abc", "b2"]
 CSV_POOL = FILE_POOL + ["x y", "p,q", 'say "hi"', "é"]
 INT_POOL = [0, 1, 2, 3, 9, 10, -1, -2, 7, 100]
+DEC_POOL = ["0.1234567", "-3.00000123", "12.3456789", "0.000001234", "2.7182818284", "-0.1234567", "1e-07", "123456.789012"]
 BIG_POOL = [2 ** 60 + 1, 2 ** 53 + 1, -(2 ** 62) - 3, 10 ** 20 + 7, 2 ** 60, 2 ** 64 - 1]
 FRAC_POOL = [[1, 3], [-2, 7], [10 ** 18 + 1, 3], [22, 7]]
 FLT_POOL = [[1, 2], [3, 2], [-1, 2], [5, 4], [2, 1], [0, 1], [7, 2], [1, 4]]   # n/d, d a power of two
@@ -980,7 +1053,11 @@ class Gen:
         """n regression targets: small ints / dyadic floats, or (a quarter of the cases) exact mode: integers
         beyond 2**53 (no double holds them), small integers and, where the label type is explicit, Fractions —
         no floats then, so every reward is exact and compared exactly at small integer distances"""
-        if not self.r.chance(0.35):
+        m0 = self.r.below(100)
+        if m0 < 20:
+            # doubles with many decimals (a compact / rounded state would move the target) among small numbers
+            return [{"x": self.r.choice(DEC_POOL)} if self.r.chance(0.6) else self.num_cell() for _ in range(n)]
+        if m0 < 65:
             return [self.num_cell() for _ in range(n)]
         out = []
         for _ in range(n):
@@ -1049,7 +1126,7 @@ class Gen:
     def xy(self, tier):
         r = self.r
         n = self.n_rows()
-        kind = r.wchoice([(22, "str"), (14, "int"), (8, "float"), (3, "bool"), (14, "cat"), (8, "list1"), (18, "multi"), (13, "reg")])
+        kind = r.wchoice([(22, "str"), (14, "int"), (8, "float"), (3, "bool"), (14, "cat"), (8, "list1"), (18, "multi"), (14, "reg"), (3, "tuple")])
         case = {"src": "xy", "via": r.choice(["sim", "sim", "env"]), "kw": r.chance(0.4)}
         fk = r.choice(["tuple", "tuple", "list", "dict", "num", "str", "none", "nested"])
         width = r.randint(1, 4)
@@ -1059,8 +1136,16 @@ class Gen:
             lt = r.choice([None, None, "c", "C"])
         elif kind in ("int", "float"):
             uni = self.num_universe() if kind == "float" else [ci(i) for i in self.universe(INT_POOL + ([2 ** 60, 2 ** 60 + 1] if r.chance(0.2) else []))]
+            if kind == "float" and r.chance(0.35):
+                uni = uni + [{"x": d} for d in r.sample(DEC_POOL, 2)]      # class labels with many decimals
             Y = self.labels_from(uni, n)
             lt = r.choice(["c", "c", "C"])
+        elif kind == "tuple":
+            # tuple-valued class labels (hashable, ordered): the model has no tuple atoms, so only the statement is checked
+            uni = [{"t": [ci(a), ci(b)]} for a, b in r.sample([(1, 2), (1, 3), (0, 5), (2, 1), (10, 9)], r.randint(1, 4))]
+            Y = self.labels_from(uni, n)
+            lt = r.choice([None, "c"])
+            case["no_model"] = True
         elif kind == "bool":
             Y = self.labels_from([{"b": True}, {"b": False}], n)
             lt = r.choice(["c", "c", None, "r"])      # None: a bool is an int, so regression is inferred (targets 1/0)
@@ -1431,6 +1516,11 @@ def snippet_for(case):
               "            try: rs.append(it['rewards'](a))",
               "            except Exception as e: rs.append(repr(e))",
               "        print('  context', ctx, 'actions', list(it['actions']), 'rewards', it['rewards'], 'on actions', rs)"]
+    lines += ["        import pickle, copy; from coba.json import dumps, loads",
+              "        at = list(it['actions']) + ([it['rewards']._argmax] if type(it['rewards']).__name__ == 'L1Reward' else [])",
+              "        for nm, f in (('pickle', lambda x: pickle.loads(pickle.dumps(x))), ('deepcopy', copy.deepcopy), ('json', lambda x: loads(dumps(x)))):",
+              "            try: c = f(it['rewards']); print('   after', nm, [(it['rewards'](a), c(a)) for a in at], '(original, copy) rewards')",
+              "            except Exception as e: print('   after', nm, repr(e))"]
     keys = access_keys(case)
     if keys and keys["label"] is not None:
         lines += ["        LABEL = %r" % (keys["label"],),
@@ -1547,6 +1637,12 @@ class C14(Property):
         cs_.append(dict(base, src="xy", label_type="r", rows=[[t(1), {"fr": [1, 3]}], [t(2), {"fr": [10 ** 18 + 1, 3]}], [t(3), ci(-(2 ** 62) - 3)]]))
         cs_.append(dict(base, src="rows", sparse=False, label_col=0, label_type="r", take=None, rows=[[ci(2 ** 64 - 1), ci(1)], [ci(10 ** 20 + 7), ci(2)]]))
         cs_.append(dict(base, src="xy", label_type="c", rows=[[t(1), ci(2 ** 60)], [t(2), ci(2 ** 60 + 1)], [t(3), ci(2 ** 60)]]))
+        # reward objects must survive pickle / deepcopy / coba.json unchanged: targets with many decimals, strings with blanks and quotes, tuples
+        cs_.append(dict(base, src="xy", label_type=None, rows=[[t(1), {"x": "0.1234567"}], [t(2), {"x": "-3.00000123"}], [t(3), {"x": "1e-07"}]]))
+        cs_.append(dict(base, src="xy", label_type="c", rows=[[t(1), {"x": "0.1234567"}], [t(2), {"x": "0.1234568"}], [t(3), cf([1, 2])]]))
+        cs_.append(dict(base, src="xy", label_type=None, rows=[[t(1), cs("it's \"q\"")], [t(2), cs(" a,b ")], [t(3), cs("x y")]]))
+        cs_.append(dict(base, src="xy", label_type="m", rows=[[t(1), {"l": [cs("a b"), cs("c\"d")]}], [t(2), {"l": [cs("a b")]}]]))
+        cs_.append(dict(base, src="xy", label_type="c", no_model=True, rows=[[t(1), {"t": [ci(1), ci(2)]}], [t(2), {"t": [ci(1), ci(3)]}]]))
         for c in cs_:
             c.setdefault("take", None)
         return cs_
@@ -1679,6 +1775,12 @@ class C14(Property):
             tags.append("label:int-beyond-2^53")
         if any(l[0] == "q" and l[2] & (l[2] - 1) for l in exp["labels"]):
             tags.append("label:fraction")
+        if any(l[0] == "q" and l[2] > 2 ** 20 and l[2] & (l[2] - 1) == 0 for l in exp["labels"]):
+            tags.append("label:many-decimals")
+        if case.get("no_model"):
+            tags.append("label:tuple(no-model)")
+        if "ints" in impl[0] and impl[0]["ints"] and impl[0]["ints"][0].get("copies"):
+            tags.append("copies:" + impl[0]["ints"][0]["copies"]["cls"])
         if exp.get("levels") is not None:
             used = {v[1] for v in exp["lab"]}
             tags.append("cat:all-levels-used" if used >= set(exp["levels"]) else "cat:unused-level")
@@ -1690,7 +1792,7 @@ class C14(Property):
         nontrivial = exp["n"] >= 2 and distinct >= 2 and not case.get("edge")
         # (A) + (C)
         model = None
-        if driver is not None:
+        if driver is not None and not case.get("no_model"):
             req = model_request(case, probes)
             ans = driver.ask(req)
             mobs = model_obs(ans, req["op"])
